@@ -78,3 +78,16 @@ def cases(tier, seed, ctx=None):
         if where == 2:
             ops = ops[:-1] + [G.App(a) for a in late] + [G.Turn]
         yield ("socknet", [pol, ops, env2, [19, 1]], "net-" + name)
+    # a transport whose reading side lingers after close() (family sockl): the application closes or answers with an error
+    # while the head is still incomplete, then the rest of the head (or a whole request) still arrives
+    for j in range(80 if tier == "quick" else 1200):
+        r = G.valid_request(rng, body_len=rng.choice([0, 0, 3]))
+        stream = r["head"] + b"\r\n\r\n" + rng.bytes(max(0, r["cl"]))
+        k = rng.range(0, len(r["head"]) + 3)
+        ver3, tab3 = G.oracle(ctx, [r["raw"]])
+        env3 = G.env_for(ver3, tab3, [r["raw"]])
+        early = rng.choice([[G.Close], [G.WriteError(500)], [G.Write(b"no"), G.Close], [G.WriteRedirect(b"/x")]])
+        late = rng.choice([stream[k:], stream[k:] + b"GET / HTTP/1.1\r\n\r\n", b"BOGUS\r\n\r\n", stream])
+        ops = [G.Construct] + ([G.Feed(stream[:k])] if k else []) + [G.App(a) for a in early] + [G.Feed(s) for s in rng.partition(late, 3)] + [G.Turn]
+        pol = rng.choice([G.NOPOL, [[G.Write(b"ok"), G.Close], [], []]])
+        yield ("sockl", [pol, ops, env3, [19]], "linger-late-segments")
